@@ -270,9 +270,21 @@ acl_new_entry(struct archive_acl *acl,
 {
 	struct archive_acl_entry *ap, *aq;
 
-	/* Type argument must be a valid NFS4 or POSIX.1e type.
+	/* Type argument must be a valid NFS4 or POSIX.1e type
+	 * (exactly one of them, not a combination).
 	 * The type must agree with anything already set and
 	 * the permset must be compatible. */
+	switch (type) {
+	case ARCHIVE_ENTRY_ACL_TYPE_ACCESS:
+	case ARCHIVE_ENTRY_ACL_TYPE_DEFAULT:
+	case ARCHIVE_ENTRY_ACL_TYPE_ALLOW:
+	case ARCHIVE_ENTRY_ACL_TYPE_DENY:
+	case ARCHIVE_ENTRY_ACL_TYPE_AUDIT:
+	case ARCHIVE_ENTRY_ACL_TYPE_ALARM:
+		break;
+	default:
+		return (NULL);
+	}
 	if (type & ARCHIVE_ENTRY_ACL_TYPE_NFS4) {
 		if (acl->acl_types & ~ARCHIVE_ENTRY_ACL_TYPE_NFS4) {
 			return (NULL);
